@@ -8,7 +8,7 @@ from checks.c08 import has_complete_group
 RULE = ("antichains of the hierarchy (no cell an ancestor of another), duplicates allowed, resolutions mixed across faces: "
         "complete enumeration of the bounded sub-hierarchy of C08, Hypothesis antichains (recursive split/keep/drop, deep "
         "grafts) with permutations and duplications, atheris (thorough). Oracle: set-based reference compaction "
-        "(refids.ref_compact); output has no duplicates, equals the reference as a set, is the same for 3 input orderings, and "
+        "(refids.ref_compact); output has no duplicates, equals the reference as a set, is the same for the generated orderings and for the numerically ascending (deduplicated) and descending orderings, and "
         "compact(compact(X)) == compact(X). Non-trivial = the reference result differs from set(X) (something had to merge) and "
         "X mixes >=2 resolutions across >=2 faces; distinct by the input list.")
 ASSUMPTIONS = ["documented id layout is the specification (refids.parent/children)"]
@@ -19,7 +19,9 @@ def judge_cells(cells, case, orderings=()):
     import a5
     ref = refids.ref_compact(cells)
     outs = []
-    for arg in (cells,) + tuple(orderings):
+    # numerically sorted inputs are a natural special case for an implementation (fast paths): always included
+    special = [sorted(set(cells)), sorted(cells, reverse=True)]
+    for arg in (cells,) + tuple(orderings) + tuple(x for x in special if x != cells):
         try:
             out = a5.compact(list(arg))
         except Exception as e:  # noqa: BLE001
